@@ -55,6 +55,15 @@ def run(report, db, tier):
                 'compression_threshold', 'compression_enabled'),
             what='compression threshold') or 0
     report.floor('set-compression paths checked', nsw, 2)
+    from ..common import borrow
+    from . import c16
+    from .. import pathsum
+    borrow(report, 'R12.8', "what is handed to a connection that has just "
+           "connected reaches the wire: the dying thread of the previous "
+           "connection cannot close the new one (C16's close-race rule)",
+           lambda rid, c: c.startswith('dispatch:'),
+           lambda sub: c16.r8(sub, db, cg, M, pathsum.PathSum(
+               db, cg, inline_pred=pathsum.known_unit_pred())))
     R7 = report.rule('R12.7', '"also under encryption": the cipher wrapper '
                      'hands every write to the socket at once (a single '
                      'pass-through update, nothing held back)')
